@@ -455,7 +455,7 @@ def generate(rng, tier, mult):
     tiny = [g for g in geos if _prod(_full(*g)) <= 4]
     # ---- exhaustive sequences over the alphabet on tiny geometries
     if tier == "quick":
-        chosen = rng.sample(tiny, 5 * mult)
+        chosen = rng.sample(tiny, 3 * mult)
         plan = [(g, 2, ["file", "dict"]) for g in chosen]
     else:
         plan = [(g, 2, ["file", "dict"]) for g in tiny]
@@ -467,7 +467,7 @@ def generate(rng, tier, mult):
             for seq in itertools.product(alpha, repeat=length):
                 cases.append(store_case(b, g, list(seq)))
     # ---- random sequences on every geometry
-    n_rand = (4 if tier == "quick" else 60) * mult
+    n_rand = (3 if tier == "quick" else 60) * mult
     for g in geos:
         for j in range(n_rand):
             b = BACKENDS[j % 3] if j % 6 != 5 else rng.choice(BACKENDS)
